@@ -240,4 +240,25 @@ def localOf (s : SeedVal) : Local :=
   | .global => .glob
   | .stream _ _ => .priv
 
+/-! ## the seeded semantics obtains its generator through `getRng`
+
+Private streams are indexed by the construction seed: `privOf k` is the stream of `RandomState(k)`.  `runSeed` is the
+run of a function body for a caller-supplied `seed` value: `getRng` decides the kind of frame and where in which stream
+the local generator stands (an int: position 0 of stream `k`; a `RandomState` built from `k` that made `pos` draws:
+position `pos` of the same stream; `None` / `np.random`: the global generator). -/
+
+structure SeedStreams where
+  privOf : Nat → Nat → Nat
+  np : Nat → Nat
+  py : Nat → Nat
+  unk : Nat → Nat
+
+def SeedStreams.streams (σ : SeedStreams) (k : Nat) : Streams := ⟨σ.privOf k, σ.np, σ.py, σ.unk⟩
+
+def runSeed (tbl : Table) (σ : SeedStreams) (ctl : List Nat → Nat → Bool) (n : Nat) (s : SeedVal) (body : Stmt)
+    (st : St) : Option St :=
+  match getRng s with
+  | .global => run tbl (σ.streams 0) ctl n .glob body st
+  | .stream k pos => run tbl (σ.streams k) ctl n .priv body { st with privPos := pos }
+
 end Bct.RngIR
